@@ -2,5 +2,7 @@ CONSTANTS
   JBlockInverted = FALSE
   JNo172 = FALSE
   JAllowFallsThrough = FALSE
+  TBlockInverted = FALSE
+  TNo172 = FALSE
 SPECIFICATION Spec
 CHECK_DEADLOCK FALSE
